@@ -92,6 +92,14 @@ CLAIMED = {
             "flag forwarding of to_si/from_si are compared structurally.",
             "Trusts the partial evaluator (sa/peval.py) and the reference constants in sa/props/c17.py (taken from the property statement and "
             "EPANET's unit definitions); last-ulp rounding and numpy broadcasting semantics are not decided.", "DESIGN.md §4 C17"),
+    "C20": ("formula extraction of the metric functions into sympy terms (pandas selections as uninterpreted leaves; references evaluated through the "
+            "same extractor); CFG rule for loops that never iterate; call-site argument dataflow for the demand clock; AST rule for the "
+            "percentage convention; docstring-table vs default-table comparison",
+            "Decides the scalar formulas of expected demand (clock, multiplier, category), its one-period average, WSA, Todini, MRI (both "
+            "modes), tank capacity, population, pump power/energy/cost and maximum pump power, that Euclid's gcd iterates, that the efficiency "
+            "percentage is divided by 100 wherever used, and that default lookup tables equal the documented ones with nearest-entry selection.",
+            "Does not decide values on actual result tables nor pandas alignment; entropy is outside the statement. One known finding "
+            "(annual_network_cost uses the efficiency in percent).", "DESIGN.md §4 C20"),
 }
 
 NOT_APPLICABLE = {
